@@ -47,7 +47,7 @@ def _mk(kind, byte0):
     return idv.ISCSIDevice("iscsi://h/t/1", "iqn.test"), sc
 
 
-def _expect(ctx, dev, b0, tag):
+def _expect(ctx, dev, b0, tag, before=None):
     import pyscsi.pyscsi.scsi_enum_command as ec
     t = b0 & 0x1F
     ctx.check(tag + "devicetype is the reported peripheral device type", dev.devicetype == ctx.oracle(t))
@@ -60,6 +60,14 @@ def _expect(ctx, dev, b0, tag):
         ctx.check(tag + "CD/DVD devices get MMC", ops is ctx.oracle(ec.mmc))
     elif t == 8:
         ctx.check(tag + "media changers get SMC", ops is ctx.oracle(ec.smc))
+    elif before is not None:
+        # processor / unrecognised types: the device keeps its own set (or gets the primary one); the set of a
+        # previously attached device must not leak in.  (printer 02h / communications 09h devices are given the
+        # SSC table by the library, which also offers the primary commands.)
+        own = (ops is before) | (ops is ec.spc) if True else None
+        if (t == 2) | (t == 9):
+            own = own or (ops is ec.ssc)
+        ctx.check(tag + "no other device's command set leaks into a device of unrecognised type", ctx.oracle(bool(own)))
     # every type, recognised or not: the primary commands are on offer with their T10 codes
     for name in ("INQUIRY", "TEST_UNIT_READY", "REPORT_LUNS"):
         ctx.check(tag + "selected set offers %s" % name,
@@ -97,13 +105,14 @@ def h_attach(ctx, kinds):
         devs.append(dev)
         scs.append(sc)
         b0s.append(b0)
+        own_before = dev.opcodes
         if s is None:
             s = SCSI(dev)
         else:
             s(dev)
         ctx.check("attach %d: facade now drives the new device" % i, s.device is dev)
         _check_inquiry_cdb(ctx, sc.cdbs, "attach %d: " % i)
-        _expect(ctx, dev, b0, "attach %d: " % i)
+        _expect(ctx, dev, b0, "attach %d: " % i, before=own_before)
         # earlier devices keep the set selected for *their* type
         for j in range(i):
             _expect(ctx, devs[j], b0s[j], "after attach %d, device %d: " % (i, j))
